@@ -77,7 +77,7 @@ func main() {
 		run  func()
 	}{
 		{"regression", runRegression}, {"short", runShort}, {"sub4", runSubAlphabets}, {"resident", runResident},
-		{"macro", runMacro}, {"nonlatin1", runNonLatin1}, {"hints", runHints}, {"capacity", runCapacity},
+		{"macro", runMacro}, {"nonlatin1", runNonLatin1}, {"hints", runHints}, {"capacity", runCapacity}, {"sizes", runRequestedSizes},
 	}
 	only := os.Getenv("C02_ONLY") // development aid: comma-separated family names; the run is then marked incomplete
 	for _, f := range fams {
